@@ -83,7 +83,9 @@ func nativeReplay(verifRoot string, rf *replayFile, path string) (string, string
 				if rf.Label == "" || lbl == rf.Label {
 					return "reproduced", txt
 				}
-				return "reproduced-other-assertion:" + lbl, txt
+				// a DIFFERENT assertion failing natively means harness model and native run disagree before the
+				// reported assertion is reached: inconclusive, never a violation
+				return "diverged: native run failed another assertion first: " + lbl, txt
 			case strings.HasPrefix(rest, "passed"):
 				return "passed", txt
 			case strings.HasPrefix(rest, "panicked"):
